@@ -178,6 +178,18 @@ func analyze(cl *cluster) *analysis {
 		}
 	}
 
+	// (1c) commit lock: a validator that broadcast its Commit for a height
+	// stands by it - on its timer it re-sends what it has (RecoveryMessage), it
+	// never asks for a view change or for recovery at that height again. One
+	// that does has lost its commit and is free to sign another block.
+	a.obs["commit_lock_breaks"] = int64(len(rec.afterCommit))
+	if len(rec.afterCommit) > 0 {
+		x := rec.afterCommit[0]
+		a.add("safety:validator-asks-for-view-change-or-recovery-after-its-commit",
+			fmt.Sprintf("node %d broadcast its Commit for height %d (view %d) and later a %s (view %d) for the same height: it no longer knows that it committed", x.Node, x.Height, x.CommitView, x.Type, x.View),
+			map[string]any{"first": x, "all": rec.afterCommit, "commits_broadcast_at_height": sentCommitsAt(rec, x.Height), "accepted_by": acceptedAt[x.Height]})
+	}
+
 	// (1) agreement: no two nodes hold different hashes at one height
 	for h := uint32(1); h <= a.maxH; h++ {
 		var ref util.Uint256
